@@ -199,6 +199,11 @@ func (e *Enc) heapSet(st *State, name, sort, term string) {
 }
 
 func (e *Enc) newState() *State {
+	e.heapInit("alloc", "(Array Ref Bool)", 0)
+	if !e.ctx.declared["ax:allocnil"] {
+		e.ctx.declared["ax:allocnil"] = true
+		e.ctx.assert("(not (select alloc!0 nil))")
+	}
 	return &State{epoch: 0, heaps: map[string]string{}, tok: e.ctx.declConst("tok!0", sortTok)}
 }
 
